@@ -718,6 +718,18 @@ for _pc, _key, _st, _where in _READ_PAIRS:
         _make_roundtrip(_pc, _key, _st, _where)
 
 
+# "every other value is rejected with TypeError or ValueError before anything is written": the attribute setter closures
+# (xmlchemy OptionalAttribute / RequiredAttribute), one contract per declaration and input kind -- the same bodies as C09's,
+# restricted to the rejection clause
+def _attribute_setters():
+    from contracts import c09
+
+    c09._build_attrs("C11")
+
+
+_attribute_setters()
+
+
 # --------------------------------------------------------------------------------------------
 # BOUNDED stand-in (never counted as proved): IEEE-754 probes where the reals and doubles differ
 
